@@ -1486,6 +1486,13 @@ impl<'b, T: El> Pair<'b, T> {
         if self.bv.capacity() < self.bv.len() {
             rep.violate("C13", format!("C13/vec<{}>/{}/capacity-below-len", T::NAME, name), String::new());
         }
+        // C04 at the collections layer: the buffer is aligned for its element type (also after a move)
+        let al = std::mem::align_of::<T>();
+        if (self.bv.as_ptr() as usize) % al != 0 {
+            rep.violate("C04", format!("C04/collections/vec<{}>/buffer-misaligned-for-its-element-type", T::NAME), format!("{:#x} after {} (align {}, capacity {})", self.bv.as_ptr() as usize, name, al, self.bv.capacity()));
+            rep.violate("C13", format!("C13/vec<{}>/{}/buffer-misaligned-for-its-element-type", T::NAME, name), format!("{:#x} (align {})", self.bv.as_ptr() as usize, al));
+        }
+        rep.bump("c04.collection_buffers_checked");
         if T::TRACKED {
             // reachable elements are live (not dropped), distinct
             let mut ids: Vec<u32> = Vec::new();
